@@ -623,6 +623,12 @@ func (e fixEvaluator) Emit(ct *rlwe.Ciphertext) {
 	}
 }
 
+// GALMOD control: the inverse of a Galois element modulo 2N instead of NthRoot
+func invGal(r *ring.Ring, galEl uint64) uint64 {
+	twoN := uint64(r.N() << 1)
+	return ring.ModExp(galEl, twoN-1, twoN)
+}
+
 func rnsBad(r *ring.Ring, v uint64) (rns ring.RNSScalar) {
 	rns = make(ring.RNSScalar, r.Level()+1)
 	for i := range rns {
